@@ -200,7 +200,8 @@ def c17_session(klepto, job):
         os.makedirs(root, exist_ok=True)
         arch = archmon.public_open(b, root, False)
         # results must be storable: sqlite / json / source-text take scalars only
-        tgt = keymon.Target(cell['spec'], 'func', rmode=gen.result_mode(b))
+        rm = gen.result_mode(b)
+        tgt = keymon.Target(cell['spec'], 'func', rmode=('falsy' if rm == 'tuple' else rm))
         fn = tgt.plain
         mod = klepto.safe if cell.get('safe') else klepto
         cls = getattr(mod, cell['deco'] + '_cache')
